@@ -1,301 +1,770 @@
 package main
 
-// GenSessLock.v (property C14): the lock-protocol SKELETON of every function of
-// sfilesys.go that Model/SessLock.v transcribes by hand.  For each function, in
-// source order, the tokens
+// GenSessLock.v (property C14): the lock-protocol TRACE SETS of the session created by
+// SFileSys, re-extracted from the current source before every `make`.
 //
-//	if{ … }  else{ … }  for{ … } branch / loop structure (condition tokens come first)
-//	return                      a return statement
-//	defer-unlock:X              defer X.Unlock()
-//	defer{ … }                  defer func() { … }()
-//	func{ … }                   any other function literal (Create's `fail`)
-//	lock:X  unlock:X            X.Lock() / X.Unlock()
-//	refs:M                      sess.refs.M(…)           (the sync.Map)
-//	call:F                      getRef / newRef / delRef / delRefAction / openLocked / link / IsDir / EnsureNonNil / combine_errors / NewReaddir
-//	iface:T.M                   a method call on a FileSys / Dirent / File / AuthFile value
-//	set:F  get:F                write / read of SFid field F (Ent, File, Mode, path)
+// For every exported method of the concrete session type (the type of the value SFileSys
+// returns; found through go/types, not by name) the generator enumerates every syntactic
+// path through the method - if/else, switch, for/range (zero or one iteration), early
+// returns, deferred calls run at the return in LIFO order - with every same-package
+// function, method or local closure it calls INLINED (parameters, receivers and returned
+// variables are identified with the caller's), and records along each path the events
 //
-// Proofs/SessLockProofsTie.v holds the skeleton the model was transcribed from and
-// proves the two equal by reflexivity: ANY edit that adds a return, moves a defer,
-// adds or reorders a table/lock/FileSys action or an SFid field access changes this
-// file and breaks that proof obligation until the model has been re-transcribed.
-// Statement kinds that do not occur in these functions today (range, switch, select,
-// go, goto, labels) are not guessed at: they become an UNRECOGNISED token, which breaks the equality.
+//	map:M             a call of sync.Map method M
+//	lock:v unlock:v   (trylock, rlock, ...) a call of a sync.Mutex/RWMutex method, on variable v
+//	get:v.F set:v.F   read / write of field F of a struct that contains a mutex (SFid)
+//	iface:T.M         a call through an exported interface type of the package (FileSys, Dirent, File, AuthFile)
+//	ret               the method returns
+//
+// Variables are numbered v0, v1, ... by first appearance in the path; exported field names are
+// kept (they are API), unexported ones become their index.  Everything is resolved through
+// go/types objects: what a thing is called - local variables, unexported helpers, unexported
+// types - does not matter; helper functions that take no lock and touch nothing protected
+// contribute nothing; declaration order and declaration style do not matter; extracting or
+// inlining a helper does not change the set of paths.
+//
+// The skeleton of a method is the SET of its traces (sorted, duplicates removed), published as
+// their number and the SHA-256 of their text (the traces themselves are in a comment for the
+// reader, and in design/C14-skeleton.txt as transcribed).  Proofs/SessLockProofsTie.v holds the
+// values the model was transcribed from and proves them equal by reflexivity: an added early
+// return between a Lock and its defer, a moved or dropped Unlock, a new table or FileSys action,
+// a field access moved out of the lock - anything that changes some path's event sequence -
+// breaks that proof obligation until the model has been re-transcribed.
+// Constructs whose control flow the enumeration does not understand (go, select, goto, labels,
+// break/continue, recursion) become an UNRECOGNISED event when they occur in code that is on a
+// lock-relevant path: the obligation breaks rather than guesses.
 
 import (
+	"crypto/sha256"
 	"fmt"
 	"go/ast"
 	"go/types"
+	"sort"
 	"strings"
 )
 
 func init() { register("GenSessLock.v", genSessLock) }
 
-var sessLockFuncs = []struct{ recv, name string }{
-	{"session", "Stop"}, {"session", "getRef"}, {"SFid", "link"}, {"session", "newRef"}, {"session", "delRef"}, {"", "delRefAction"},
-	{"session", "Auth"}, {"session", "Attach"}, {"session", "Clunk"}, {"session", "Remove"}, {"session", "Walk"},
-	{"session", "Read"}, {"session", "Write"}, {"session", "Open"}, {"", "openLocked"}, {"session", "Create"},
-	{"session", "Stat"}, {"session", "WStat"},
+// ---- events and paths
+
+type slEv struct {
+	kind string       // "map:Load", "lock", "get", "iface:Dirent.Stat", "ret", "UNRECOGNISED ..."
+	obj  types.Object // the variable, for lock/get/set events
+	fld  string       // ".Ent" for get/set
 }
 
-var sessLockHelpers = map[string]bool{"getRef": true, "newRef": true, "delRef": true, "delRefAction": true, "openLocked": true,
-	"link": true, "IsDir": true, "EnsureNonNil": true, "combine_errors": true, "NewReaddir": true}
-
-var sessLockIfaces = map[string]bool{"FileSys": true, "Dirent": true, "File": true, "AuthFile": true}
-
-var sfidFields = map[string]bool{"Ent": true, "File": true, "Mode": true, "path": true}
-
-type skel struct {
-	c    *Ctx
-	toks []string
-	err  error
+type slPath struct {
+	evs  []slEv
+	done bool         // a return was executed
+	rets []ast.Expr   // its result expressions
+	defs [][]*slPath  // deferred path sets registered so far (innermost function only)
 }
 
-func (s *skel) emit(t string) { s.toks = append(s.toks, t) }
-
-// An unrecognised shape is loud but local: it becomes a token that cannot be in the transcribed
-// skeleton, so C14's proof obligation breaks (and names the place) while the generated files of the
-// other properties are still written.  Only a function that has vanished is a translator error.
-func (s *skel) fail(n ast.Node, what string) {
-	pos := s.c.Fset.Position(n.Pos())
-	s.emit(fmt.Sprintf("UNRECOGNISED@line%d: %s", pos.Line, what))
+func (p *slPath) clone() *slPath {
+	q := &slPath{done: p.done, rets: p.rets}
+	q.evs = append([]slEv(nil), p.evs...)
+	q.defs = append([][]*slPath(nil), p.defs...)
+	return q
 }
 
-func exprName(e ast.Expr) string {
-	switch x := e.(type) {
-	case *ast.Ident:
-		return x.Name
-	case *ast.SelectorExpr:
-		return exprName(x.X) + "." + x.Sel.Name
-	case *ast.UnaryExpr:
-		return x.Op.String() + exprName(x.X)
-	case *ast.StarExpr:
-		return "*" + exprName(x.X)
-	case *ast.ParenExpr:
-		return exprName(x.X)
+const slMaxPaths = 200000
+
+type slGen struct {
+	c        *Ctx
+	decls    map[types.Object]*ast.FuncDecl
+	lits     map[types.Object]*ast.FuncLit // local variables holding a function literal
+	relevant map[*ast.FuncDecl]int         // 0 unknown, 1 in progress, 2 no, 3 yes
+	memo     map[ast.Node][]*slPath        // finished path sets of function bodies
+	stack    map[ast.Node]bool
+	err      error
+}
+
+// ---- type helpers
+
+func slNamed(t types.Type) *types.Named {
+	if t == nil {
+		return nil
 	}
-	return "?"
-}
-
-func (s *skel) namedOf(e ast.Expr) string {
-	tv, ok := s.c.Info.Types[e]
-	if !ok || tv.Type == nil {
-		return ""
-	}
-	t := tv.Type
 	if p, ok := t.(*types.Pointer); ok {
 		t = p.Elem()
 	}
-	if n, ok := t.(*types.Named); ok {
-		return n.Obj().Name()
+	n, _ := t.(*types.Named)
+	return n
+}
+
+func slIsSync(n *types.Named, names ...string) bool {
+	if n == nil || n.Obj().Pkg() == nil || n.Obj().Pkg().Path() != "sync" {
+		return false
+	}
+	for _, x := range names {
+		if n.Obj().Name() == x {
+			return true
+		}
+	}
+	return false
+}
+
+// a struct type that contains a sync.Mutex/RWMutex (embedded or as a field): its other fields are "protected"
+func slHasMutex(n *types.Named) bool {
+	if n == nil {
+		return false
+	}
+	st, ok := n.Underlying().(*types.Struct)
+	if !ok {
+		return false
+	}
+	for i := 0; i < st.NumFields(); i++ {
+		if slIsSync(slNamed(st.Field(i).Type()), "Mutex", "RWMutex") {
+			return true
+		}
+	}
+	return false
+}
+
+func (g *slGen) typeOf(e ast.Expr) types.Type {
+	if tv, ok := g.c.Info.Types[e]; ok {
+		return tv.Type
+	}
+	if id, ok := e.(*ast.Ident); ok {
+		if o := g.c.Info.Uses[id]; o != nil {
+			return o.Type()
+		}
+		if o := g.c.Info.Defs[id]; o != nil {
+			return o.Type()
+		}
+	}
+	return nil
+}
+
+// the variable an expression is rooted in: ref, ref.Ent, &next, (*p).x ...
+func (g *slGen) root(e ast.Expr) types.Object {
+	switch x := e.(type) {
+	case *ast.Ident:
+		if o := g.c.Info.Uses[x]; o != nil {
+			return o
+		}
+		return g.c.Info.Defs[x]
+	case *ast.SelectorExpr:
+		return g.root(x.X)
+	case *ast.UnaryExpr:
+		return g.root(x.X)
+	case *ast.StarExpr:
+		return g.root(x.X)
+	case *ast.ParenExpr:
+		return g.root(x.X)
+	case *ast.TypeAssertExpr:
+		return g.root(x.X)
+	case *ast.IndexExpr:
+		return g.root(x.X)
+	}
+	return nil
+}
+
+// ---- is a function lock-relevant at all?  (syntactic pre-scan, transitive over same-package calls)
+
+func (g *slGen) calleeDecl(call *ast.CallExpr) *ast.FuncDecl {
+	var obj types.Object
+	switch f := call.Fun.(type) {
+	case *ast.Ident:
+		obj = g.c.Info.Uses[f]
+	case *ast.SelectorExpr:
+		obj = g.c.Info.Uses[f.Sel]
+	}
+	if obj == nil {
+		return nil
+	}
+	return g.decls[obj]
+}
+
+func (g *slGen) nodeRelevant(n ast.Node) bool {
+	rel := false
+	ast.Inspect(n, func(x ast.Node) bool {
+		if rel {
+			return false
+		}
+		switch e := x.(type) {
+		case *ast.CallExpr:
+			if g.callEvent(e) != "" {
+				rel = true
+			} else if fd := g.calleeDecl(e); fd != nil && g.funcRelevant(fd) {
+				rel = true
+			}
+		case *ast.SelectorExpr:
+			if g.fieldEvent(e) != "" {
+				rel = true
+			}
+		}
+		return !rel
+	})
+	return rel
+}
+
+func (g *slGen) funcRelevant(fd *ast.FuncDecl) bool {
+	switch g.relevant[fd] {
+	case 1:
+		return false // recursion: decided by the outer call
+	case 2:
+		return false
+	case 3:
+		return true
+	}
+	g.relevant[fd] = 1
+	r := fd.Body != nil && g.nodeRelevant(fd.Body)
+	if r {
+		g.relevant[fd] = 3
+	} else {
+		g.relevant[fd] = 2
+	}
+	return r
+}
+
+// the event a call is by itself ("" if none): sync.Map / mutex methods, interface calls
+func (g *slGen) callEvent(call *ast.CallExpr) string {
+	f, ok := call.Fun.(*ast.SelectorExpr)
+	if !ok {
+		return ""
+	}
+	fn, ok := g.c.Info.Uses[f.Sel].(*types.Func)
+	if !ok {
+		return ""
+	}
+	sig := fn.Type().(*types.Signature)
+	if sig.Recv() == nil {
+		return ""
+	}
+	rn := slNamed(sig.Recv().Type())
+	switch {
+	case slIsSync(rn, "Map"):
+		return "map:" + fn.Name()
+	case slIsSync(rn, "Mutex", "RWMutex"):
+		return strings.ToLower(fn.Name())
+	}
+	// a call through an interface type declared in this package
+	if recvN := slNamed(g.typeOf(f.X)); recvN != nil {
+		if _, isIface := recvN.Underlying().(*types.Interface); isIface && recvN.Obj().Pkg() == g.c.Pkg {
+			name := recvN.Obj().Name()
+			if !recvN.Obj().Exported() {
+				name = "#unexported"
+			}
+			return "iface:" + name + "." + fn.Name()
+		}
 	}
 	return ""
 }
 
-func (s *skel) call(x *ast.CallExpr) {
-	// arguments and the receiver expression first (source order of evaluation)
-	switch f := x.Fun.(type) {
-	case *ast.SelectorExpr:
-		s.expr(f.X, false)
-		for _, a := range x.Args {
-			s.expr(a, false)
-		}
-		recvT := s.namedOf(f.X)
-		m := f.Sel.Name
-		switch {
-		case m == "Lock" && recvT == "SFid":
-			s.emit("lock:" + exprName(f.X))
-		case m == "Unlock" && recvT == "SFid":
-			s.emit("unlock:" + exprName(f.X))
-		case recvT == "SFid" && !sessLockHelpers[m]:
-			s.emit("sfid:" + m + ":" + exprName(f.X)) // any other method of the embedded mutex (TryLock, ...)
-		case recvT == "Map":
-			s.emit("refs:" + m)
-		case sessLockIfaces[recvT]:
-			s.emit("iface:" + recvT + "." + m)
-		case sessLockHelpers[m]:
-			s.emit("call:" + m)
-		}
-	case *ast.Ident:
-		for _, a := range x.Args {
-			s.expr(a, false)
-		}
-		if sessLockHelpers[f.Name] {
-			s.emit("call:" + f.Name)
-		} else if obj, ok := s.c.Info.Uses[f]; ok {
-			if _, isVar := obj.(*types.Var); isVar {
-				s.emit("callvar:" + f.Name) // a local function value (Create's fail)
-			}
-		}
-	case *ast.FuncLit:
-		s.emit("func{")
-		s.block(f.Body)
-		s.emit("}")
-	default:
-		s.expr(x.Fun, false)
-		for _, a := range x.Args {
-			s.expr(a, false)
+// ".F" if sel reads/writes a protected field
+func (g *slGen) fieldEvent(sel *ast.SelectorExpr) string {
+	fv, ok := g.c.Info.Uses[sel.Sel].(*types.Var)
+	if !ok || !fv.IsField() {
+		return ""
+	}
+	owner := slNamed(g.typeOf(sel.X))
+	if !slHasMutex(owner) {
+		return ""
+	}
+	if slIsSync(slNamed(fv.Type()), "Mutex", "RWMutex") {
+		return ""
+	}
+	if fv.Exported() {
+		return "." + fv.Name()
+	}
+	st := owner.Underlying().(*types.Struct)
+	for i := 0; i < st.NumFields(); i++ {
+		if st.Field(i) == fv {
+			return fmt.Sprintf(".#%d", i)
 		}
 	}
+	return ".#?"
 }
 
-func (s *skel) expr(e ast.Expr, lhs bool) {
-	switch x := e.(type) {
-	case nil:
-	case *ast.CallExpr:
-		s.call(x)
-	case *ast.SelectorExpr:
-		s.expr(x.X, false)
-		if sfidFields[x.Sel.Name] && s.namedOf(x.X) == "SFid" {
-			if lhs {
-				s.emit("set:" + x.Sel.Name)
-			} else {
-				s.emit("get:" + x.Sel.Name)
-			}
+// ---- path enumeration
+
+func (g *slGen) add(paths []*slPath, ev slEv) []*slPath {
+	for _, p := range paths {
+		if !p.done {
+			p.evs = append(p.evs, ev)
 		}
-	case *ast.FuncLit:
-		s.emit("func{")
-		s.block(x.Body)
-		s.emit("}")
-	case *ast.BinaryExpr:
-		s.expr(x.X, false)
-		s.expr(x.Y, false)
-	case *ast.UnaryExpr:
-		s.expr(x.X, false)
-	case *ast.ParenExpr:
-		s.expr(x.X, false)
-	case *ast.StarExpr:
-		s.expr(x.X, false)
-	case *ast.TypeAssertExpr:
-		s.expr(x.X, false)
-	case *ast.IndexExpr:
-		s.expr(x.X, false)
-		s.expr(x.Index, false)
-	case *ast.CompositeLit:
-		for _, el := range x.Elts {
-			if kv, ok := el.(*ast.KeyValueExpr); ok {
-				s.expr(kv.Value, false)
-			} else {
-				s.expr(el, false)
-			}
-		}
-	case *ast.Ident, *ast.BasicLit:
-	default:
-		s.fail(e, fmt.Sprintf("expression kind %T not handled by the C14 skeleton extractor", e))
 	}
+	return paths
 }
 
-func (s *skel) block(b *ast.BlockStmt) {
+func (g *slGen) unrec(paths []*slPath, n ast.Node, what string) []*slPath {
+	return g.add(paths, slEv{kind: fmt.Sprintf("UNRECOGNISED(%s)@line%d", what, g.c.Fset.Position(n.Pos()).Line)})
+}
+
+// splice the (finished) paths of an inlined body into every live path; subst renames the body's objects
+func (g *slGen) splice(paths []*slPath, body []*slPath, subst func(q *slPath) map[types.Object]types.Object) []*slPath {
+	var out []*slPath
+	for _, p := range paths {
+		if p.done {
+			out = append(out, p)
+			continue
+		}
+		for _, q := range body {
+			m := subst(q)
+			n := p.clone()
+			for _, e := range q.evs {
+				if e.obj != nil {
+					if o, ok := m[e.obj]; ok {
+						e.obj = o
+					}
+				}
+				n.evs = append(n.evs, e)
+			}
+			out = append(out, n)
+		}
+		if len(out) > slMaxPaths {
+			g.err = fmt.Errorf("more than %d paths", slMaxPaths)
+			return out[:1]
+		}
+	}
+	return out
+}
+
+// the complete path set of a function body (returns and defers resolved), memoised
+func (g *slGen) bodyPaths(key ast.Node, body *ast.BlockStmt) []*slPath {
+	if ps, ok := g.memo[key]; ok {
+		return ps
+	}
+	if g.stack[key] {
+		return []*slPath{{evs: []slEv{{kind: "UNRECOGNISED(recursion)"}}}}
+	}
+	g.stack[key] = true
+	paths := g.block([]*slPath{{}}, body)
+	// run the deferred calls, last registered first
+	var fin []*slPath
+	for _, p := range paths {
+		cur := []*slPath{{evs: p.evs, rets: p.rets}}
+		for i := len(p.defs) - 1; i >= 0; i-- {
+			cur = g.splice(cur, p.defs[i], func(*slPath) map[types.Object]types.Object { return nil })
+		}
+		for _, q := range cur {
+			q.rets = p.rets
+			q.done = false
+			q.defs = nil
+		}
+		fin = append(fin, cur...)
+	}
+	fin = slDedupe(fin)
+	delete(g.stack, key)
+	g.memo[key] = fin
+	return fin
+}
+
+func slKey(p *slPath) string {
+	var b strings.Builder
+	for _, e := range p.evs {
+		fmt.Fprintf(&b, "%s|%p|%s;", e.kind, e.obj, e.fld)
+	}
+	b.WriteString("=>")
+	for _, r := range p.rets {
+		if id, ok := r.(*ast.Ident); ok {
+			fmt.Fprintf(&b, "%s,", id.Name)
+		} else {
+			b.WriteString("_,")
+		}
+	}
+	return b.String()
+}
+
+func slDedupe(ps []*slPath) []*slPath {
+	seen := map[string]bool{}
+	var out []*slPath
+	for _, p := range ps {
+		k := slKey(p)
+		if !seen[k] {
+			seen[k] = true
+			out = append(out, p)
+		}
+	}
+	return out
+}
+
+func (g *slGen) block(paths []*slPath, b *ast.BlockStmt) []*slPath {
+	if b == nil {
+		return paths
+	}
 	for _, st := range b.List {
-		s.stmt(st)
+		paths = g.stmt(paths, st)
 	}
+	return paths
 }
 
-func (s *skel) stmt(st ast.Stmt) {
+func (g *slGen) exprs(paths []*slPath, es []ast.Expr) []*slPath {
+	for _, e := range es {
+		paths = g.expr(paths, e, false)
+	}
+	return paths
+}
+
+// fork: run f on a copy of the live paths
+func slCopy(paths []*slPath) []*slPath {
+	out := make([]*slPath, len(paths))
+	for i, p := range paths {
+		out[i] = p.clone()
+	}
+	return out
+}
+
+func (g *slGen) stmt(paths []*slPath, st ast.Stmt) []*slPath {
 	switch x := st.(type) {
+	case nil, *ast.EmptyStmt:
 	case *ast.ExprStmt:
-		s.expr(x.X, false)
+		paths = g.expr(paths, x.X, false)
 	case *ast.AssignStmt:
-		for _, r := range x.Rhs {
-			s.expr(r, false)
+		// remember closures bound to local variables
+		if len(x.Lhs) == len(x.Rhs) {
+			for i, r := range x.Rhs {
+				if fl, ok := r.(*ast.FuncLit); ok {
+					if o := g.root(x.Lhs[i]); o != nil {
+						g.lits[o] = fl
+					}
+				}
+			}
 		}
+		if len(x.Rhs) == 1 {
+			if call, ok := x.Rhs[0].(*ast.CallExpr); ok {
+				paths = g.call(paths, call, x.Lhs)
+				for _, l := range x.Lhs {
+					paths = g.expr(paths, l, true)
+				}
+				return paths
+			}
+		}
+		paths = g.exprs(paths, x.Rhs)
 		for _, l := range x.Lhs {
-			s.expr(l, true)
+			paths = g.expr(paths, l, true)
 		}
 	case *ast.DeclStmt:
 		if gd, ok := x.Decl.(*ast.GenDecl); ok {
 			for _, sp := range gd.Specs {
 				if vs, ok := sp.(*ast.ValueSpec); ok {
-					for _, v := range vs.Values {
-						s.expr(v, false)
-					}
+					paths = g.exprs(paths, vs.Values)
 				}
 			}
 		}
+	case *ast.IncDecStmt:
+		paths = g.expr(paths, x.X, false)
+		paths = g.expr(paths, x.X, true)
 	case *ast.ReturnStmt:
-		for _, r := range x.Results {
-			s.expr(r, false)
-		}
-		s.emit("return")
-	case *ast.IfStmt:
-		if x.Init != nil {
-			s.stmt(x.Init)
-		}
-		s.expr(x.Cond, false)
-		s.emit("if{")
-		s.block(x.Body)
-		s.emit("}")
-		switch e := x.Else.(type) {
-		case nil:
-		case *ast.BlockStmt:
-			s.emit("else{")
-			s.block(e)
-			s.emit("}")
-		case *ast.IfStmt:
-			s.emit("else{")
-			s.stmt(e)
-			s.emit("}")
+		paths = g.exprs(paths, x.Results)
+		for _, p := range paths {
+			if !p.done {
+				p.done = true
+				p.rets = x.Results
+			}
 		}
 	case *ast.BlockStmt:
-		s.block(x)
-	case *ast.DeferStmt:
-		if sel, ok := x.Call.Fun.(*ast.SelectorExpr); ok && sel.Sel.Name == "Unlock" && len(x.Call.Args) == 0 {
-			s.emit("defer-unlock:" + exprName(sel.X))
-		} else if fl, ok := x.Call.Fun.(*ast.FuncLit); ok {
-			s.emit("defer{")
-			s.block(fl.Body)
-			s.emit("}")
-		} else {
-			s.fail(x, "defer of something other than X.Unlock() or a function literal")
+		paths = g.block(paths, x)
+	case *ast.IfStmt:
+		paths = g.stmt(paths, x.Init)
+		paths = g.expr(paths, x.Cond, false)
+		thenP := g.block(slCopy(paths), x.Body)
+		elseP := paths
+		if x.Else != nil {
+			elseP = g.stmt(paths, x.Else)
 		}
+		paths = append(thenP, elseP...)
+	case *ast.SwitchStmt:
+		paths = g.stmt(paths, x.Init)
+		paths = g.expr(paths, x.Tag, false)
+		var out []*slPath
+		hasDefault := false
+		for _, cc := range x.Body.List {
+			c := cc.(*ast.CaseClause)
+			if c.List == nil {
+				hasDefault = true
+			}
+			br := g.exprs(slCopy(paths), c.List)
+			for _, s := range c.Body {
+				br = g.stmt(br, s)
+			}
+			out = append(out, br...)
+		}
+		if !hasDefault {
+			out = append(out, paths...)
+		}
+		paths = out
 	case *ast.ForStmt:
-		if x.Init != nil {
-			s.stmt(x.Init)
+		paths = g.stmt(paths, x.Init)
+		paths = g.expr(paths, x.Cond, false)
+		once := g.block(slCopy(paths), x.Body)
+		once = g.stmt(once, x.Post)
+		once = g.expr(once, x.Cond, false)
+		paths = append(paths, once...)
+	case *ast.RangeStmt:
+		paths = g.expr(paths, x.X, false)
+		once := g.block(slCopy(paths), x.Body)
+		paths = append(paths, once...)
+	case *ast.DeferStmt:
+		// the deferred call's own paths, computed now, run at the return
+		d := g.call([]*slPath{{}}, x.Call, nil)
+		for _, q := range d {
+			q.done, q.rets = false, nil
 		}
-		s.expr(x.Cond, false)
-		s.emit("for{")
-		s.block(x.Body)
-		if x.Post != nil {
-			s.stmt(x.Post)
+		d = slDedupe(d)
+		for _, p := range paths {
+			if !p.done {
+				p.defs = append(p.defs, d)
+			}
 		}
-		s.emit("}")
-	case *ast.IncDecStmt:
-		s.expr(x.X, true)
-	case *ast.EmptyStmt:
 	default:
-		s.fail(st, fmt.Sprintf("statement kind %T does not occur in the transcribed functions; re-transcribe Model/SessLock.v and extend the extractor", st))
+		// go, select, goto/break/continue, labels, type switches, sends: control flow this enumeration does not
+		// follow.  We only ever walk lock-relevant functions, so say so.
+		paths = g.unrec(paths, st, fmt.Sprintf("%T", st))
 	}
+	if len(paths) > slMaxPaths && g.err == nil {
+		g.err = fmt.Errorf("more than %d paths at line %d", slMaxPaths, g.c.Fset.Position(st.Pos()).Line)
+		paths = paths[:1]
+	}
+	return paths
+}
+
+func (g *slGen) expr(paths []*slPath, e ast.Expr, lhs bool) []*slPath {
+	switch x := e.(type) {
+	case nil, *ast.Ident, *ast.BasicLit:
+	case *ast.CallExpr:
+		paths = g.call(paths, x, nil)
+	case *ast.SelectorExpr:
+		paths = g.expr(paths, x.X, false)
+		if f := g.fieldEvent(x); f != "" {
+			k := "get"
+			if lhs {
+				k = "set"
+			}
+			paths = g.add(paths, slEv{kind: k, obj: g.root(x.X), fld: f})
+		}
+	case *ast.FuncLit:
+		// a closure that is only created here; its body runs where it is called
+	case *ast.BinaryExpr:
+		paths = g.expr(paths, x.X, false)
+		paths = g.expr(paths, x.Y, false)
+	case *ast.UnaryExpr:
+		paths = g.expr(paths, x.X, false)
+	case *ast.ParenExpr:
+		paths = g.expr(paths, x.X, lhs)
+	case *ast.StarExpr:
+		paths = g.expr(paths, x.X, false)
+	case *ast.TypeAssertExpr:
+		paths = g.expr(paths, x.X, false)
+	case *ast.IndexExpr:
+		paths = g.expr(paths, x.X, false)
+		paths = g.expr(paths, x.Index, false)
+	case *ast.SliceExpr:
+		paths = g.expr(paths, x.X, false)
+	case *ast.KeyValueExpr:
+		paths = g.expr(paths, x.Value, false)
+	case *ast.CompositeLit:
+		// building a new, still private value: its field initialisers are evaluated, no field of a
+		// shared struct is written
+		for _, el := range x.Elts {
+			if kv, ok := el.(*ast.KeyValueExpr); ok {
+				paths = g.expr(paths, kv.Value, false)
+			} else {
+				paths = g.expr(paths, el, false)
+			}
+		}
+	default:
+		if g.nodeRelevant(e) {
+			paths = g.unrec(paths, e, fmt.Sprintf("%T", e))
+		}
+	}
+	return paths
+}
+
+// a call: receiver and arguments, then the call's own event or the inlined body of the callee.
+// lhs: the variables the results are assigned to (to identify returned locals with them).
+func (g *slGen) call(paths []*slPath, call *ast.CallExpr, lhs []ast.Expr) []*slPath {
+	var recv ast.Expr
+	var lit *ast.FuncLit
+	switch f := call.Fun.(type) {
+	case *ast.SelectorExpr:
+		recv = f.X
+		paths = g.expr(paths, f.X, false)
+	case *ast.FuncLit:
+		lit = f
+	case *ast.Ident:
+		if o := g.c.Info.Uses[f]; o != nil {
+			if _, isVar := o.(*types.Var); isVar {
+				lit = g.lits[o]
+			}
+		}
+	case *ast.ParenExpr:
+		paths = g.expr(paths, f.X, false)
+	}
+	// arguments; a function literal passed as an argument is called back by the callee: zero or one time,
+	// after the call's own event (sync.Map.Range)
+	var callbacks []*ast.FuncLit
+	for _, a := range call.Args {
+		if fl, ok := a.(*ast.FuncLit); ok {
+			callbacks = append(callbacks, fl)
+			continue
+		}
+		paths = g.expr(paths, a, false)
+	}
+	if ev := g.callEvent(call); ev != "" {
+		e := slEv{kind: ev}
+		if !strings.Contains(ev, ":") { // a mutex method
+			e.obj = g.root(recv)
+		}
+		paths = g.add(paths, e)
+	} else if fd := g.calleeDecl(call); fd != nil && fd.Body != nil && g.funcRelevant(fd) {
+		body := g.bodyPaths(fd, fd.Body)
+		// parameters and receiver are the caller's variables
+		base := map[types.Object]types.Object{}
+		if fd.Recv != nil && len(fd.Recv.List) == 1 && len(fd.Recv.List[0].Names) == 1 && recv != nil {
+			if o := g.root(recv); o != nil {
+				base[g.c.Info.Defs[fd.Recv.List[0].Names[0]]] = o
+			}
+		}
+		i := 0
+		for _, fld := range fd.Type.Params.List {
+			for _, nm := range fld.Names {
+				if i < len(call.Args) {
+					if o := g.root(call.Args[i]); o != nil {
+						base[g.c.Info.Defs[nm]] = o
+					}
+				}
+				i++
+			}
+		}
+		paths = g.splice(paths, body, func(q *slPath) map[types.Object]types.Object {
+			m := map[types.Object]types.Object{}
+			for k, v := range base {
+				m[k] = v
+			}
+			// a returned local variable is the variable the caller assigns it to
+			if len(lhs) == len(q.rets) {
+				for j, r := range q.rets {
+					if id, ok := r.(*ast.Ident); ok {
+						if ro, lo := g.root(id), g.root(lhs[j]); ro != nil && lo != nil {
+							if _, isVar := ro.(*types.Var); isVar {
+								m[ro] = lo
+							}
+						}
+					}
+				}
+			}
+			return m
+		})
+	} else if lit != nil && g.nodeRelevant(lit.Body) {
+		body := g.bodyPaths(lit, lit.Body)
+		paths = g.splice(paths, body, func(*slPath) map[types.Object]types.Object { return nil })
+	}
+	for _, fl := range callbacks {
+		if g.nodeRelevant(fl.Body) {
+			body := g.bodyPaths(fl, fl.Body)
+			once := g.splice(slCopy(paths), body, func(*slPath) map[types.Object]types.Object { return nil })
+			paths = append(paths, once...)
+		}
+	}
+	return paths
+}
+
+// ---- canonical text of a trace
+
+func slTrace(p *slPath) string {
+	num := map[types.Object]int{}
+	var b strings.Builder
+	for i, e := range p.evs {
+		if i > 0 {
+			b.WriteByte(' ')
+		}
+		b.WriteString(e.kind)
+		if e.obj != nil {
+			n, ok := num[e.obj]
+			if !ok {
+				n = len(num)
+				num[e.obj] = n
+			}
+			fmt.Fprintf(&b, ":v%d", n)
+		} else if e.kind == "get" || e.kind == "set" || e.kind == "lock" || e.kind == "unlock" {
+			b.WriteString(":?")
+		}
+		b.WriteString(e.fld)
+	}
+	if b.Len() > 0 {
+		b.WriteByte(' ')
+	}
+	b.WriteString("ret")
+	return b.String()
 }
 
 func genSessLock(c *Ctx) (string, error) {
+	g := &slGen{c: c, decls: map[types.Object]*ast.FuncDecl{}, lits: map[types.Object]*ast.FuncLit{},
+		relevant: map[*ast.FuncDecl]int{}, memo: map[ast.Node][]*slPath{}, stack: map[ast.Node]bool{}}
+	for _, f := range c.Files {
+		for _, d := range f.Decls {
+			if fd, ok := d.(*ast.FuncDecl); ok {
+				if o := c.Info.Defs[fd.Name]; o != nil {
+					g.decls[o] = fd
+				}
+			}
+		}
+	}
+	// the session type: what SFileSys returns
+	ctor := c.FuncDecl("", "SFileSys")
+	if ctor == nil || ctor.Body == nil {
+		return "", fmt.Errorf("exported constructor SFileSys not found")
+	}
+	var sessT *types.Named
+	ast.Inspect(ctor.Body, func(n ast.Node) bool {
+		if r, ok := n.(*ast.ReturnStmt); ok && len(r.Results) == 1 && sessT == nil {
+			sessT = slNamed(g.typeOf(r.Results[0]))
+		}
+		return true
+	})
+	if sessT == nil {
+		return "", fmt.Errorf("cannot determine the concrete type SFileSys returns")
+	}
+	type entry struct {
+		name   string
+		traces []string
+	}
+	var entries []entry
+	for _, fd := range g.decls {
+		if fd.Recv == nil || len(fd.Recv.List) != 1 || !fd.Name.IsExported() || fd.Body == nil {
+			continue
+		}
+		if slNamed(g.typeOf(fd.Recv.List[0].Type)) != sessT {
+			continue
+		}
+		set := map[string]bool{}
+		for _, p := range g.bodyPaths(fd, fd.Body) {
+			set[slTrace(p)] = true
+		}
+		var ts []string
+		for t := range set {
+			ts = append(ts, t)
+		}
+		sort.Strings(ts)
+		entries = append(entries, entry{fd.Name.Name, ts})
+	}
+	if g.err != nil {
+		return "", g.err
+	}
+	if len(entries) == 0 {
+		return "", fmt.Errorf("the session type %s has no exported methods", sessT.Obj().Name())
+	}
+	sort.Slice(entries, func(i, j int) bool { return entries[i].name < entries[j].name })
 	var b strings.Builder
 	b.WriteString("From Coq Require Import List String.\nImport ListNotations.\nOpen Scope string_scope.\n\n")
-	b.WriteString("Definition sesslock_skeleton : list (string * list string) :=\n  [ ")
-	for i, f := range sessLockFuncs {
-		fd := c.FuncDecl(f.recv, f.name)
-		if fd == nil || fd.Body == nil {
-			return "", fmt.Errorf("function %s.%s not found in the source", f.recv, f.name)
-		}
-		if !strings.HasSuffix(c.Fset.Position(fd.Pos()).Filename, "sfilesys.go") {
-			return "", fmt.Errorf("function %s.%s moved out of sfilesys.go", f.recv, f.name)
-		}
-		s := &skel{c: c}
-		s.block(fd.Body)
-		if s.err != nil {
-			return "", s.err
-		}
+	b.WriteString("(* method, number of distinct traces, SHA-256 of the sorted traces (one per line) *)\n")
+	b.WriteString("Definition sesslock_skeleton : list (string * nat * string) :=\n  [ ")
+	for i, e := range entries {
 		if i > 0 {
 			b.WriteString(";\n    ")
 		}
-		fmt.Fprintf(&b, "(%q, [", f.name)
-		for j, t := range s.toks {
-			if j > 0 {
-				b.WriteString("; ")
-			}
-			fmt.Fprintf(&b, "%q", t)
-		}
-		b.WriteString("])")
+		sum := sha256.Sum256([]byte(strings.Join(e.traces, "\n")))
+		fmt.Fprintf(&b, "(%q, %d%%nat, \"%x\")", e.name, len(e.traces), sum)
 	}
-	b.WriteString(" ].\n")
+	b.WriteString(" ].\n\n(* the traces:\n")
+	for _, e := range entries {
+		fmt.Fprintf(&b, "== %s\n", e.name)
+		for _, t := range e.traces {
+			b.WriteString("   " + strings.ReplaceAll(t, "*)", "* )") + "\n")
+		}
+	}
+	b.WriteString("*)\n")
 	return b.String(), nil
 }
